@@ -188,6 +188,14 @@ Definition solvers_ok (maxV : Z) (allow : bool) (vals : list Z) (dp : list dcell
   (allow || forallb (fun k => k <=? maxV) keys) &&
   (negb allow || forallb (fun t => negb (maxV <? t) || existsb (fun k => (maxV <? k) && (k <=? t)) keys) att).
 
+(* what the judge of a returned map means *)
+Definition solvers_prop (maxV : Z) (allow : bool) (vals : list Z) (dp : list dcell) : Prop :=
+  let n := length vals in
+  NoDup (map fst dp) /\ cells_ok vals n dp /\
+  (forall t, t <= maxV -> (attainable vals n t <-> has t dp = true)) /\
+  (allow = false -> forall t, has t dp = true -> t <= maxV) /\
+  (allow = true -> forall t, least_over vals n maxV t -> has t dp = true).
+
 (* the order-independent part of the result: the entries with key <= maxV and the smallest key above it *)
 Definition min_over (maxV : Z) (dp : list dcell) : option dcell :=
   fold_left (fun acc c => if maxV <? fst c then
@@ -210,3 +218,98 @@ Definition best_over_ok (q : Z) (keys : list Z) (r : option Z) : bool :=
                ((b <? q) && forallb (fun k => k <=? q) keys && forallb (fun k => k <=? b) keys))
   | None => match keys with [] => true | _ => false end
   end.
+
+(* ================================================================================================ *)
+(* FindDpSolvers once more, at the level of buffers: a cell is a Go slice (pointer = buffer identity, length); the
+   contents live in a heap of buffers; tmpPool is a stack of recycled slices.  This is the model about which
+   "a recycled buffer never aliases a live cell" ([private]) is stated; [herase] maps it onto the value-level model above.
+   [grow oldcap need] is Go's append growth policy (any function; the new capacity is at least [need]);
+   [pord] is the order in which the commit loop `for v, solver := range dpTmp` meets the replaced cells. *)
+Local Open Scope nat_scope.
+Record slice := { sid : nat; slen : nat }.
+Definition buf := list nat.                               (* the whole capacity window of a buffer; unwritten slots hold 0 *)
+Definition hcell := (Z * slice)%type.
+Definition content (heap : list buf) (s : slice) : list nat := firstn (slen s) (nth (sid s) heap []).
+Fixpoint set_nth {A} (l : list A) (i : nat) (x : A) : list A :=
+  match l, i with
+  | [], _ => []
+  | _ :: t, O => x :: t
+  | h :: t, S j => h :: set_nth t j x
+  end.
+
+(* append(s, xs...) *)
+Definition happend (grow : nat -> nat -> nat) (heap : list buf) (s : slice) (xs : list nat) : list buf * slice :=
+  let data := nth (sid s) heap [] in
+  let need := slen s + length xs in
+  if need <=? length data then
+    (set_nth heap (sid s) (firstn (slen s) data ++ xs ++ skipn need data), {| sid := sid s; slen := need |})
+  else
+    let c := Nat.max (grow (length data) need) need in
+    (heap ++ [firstn (slen s) data ++ xs ++ repeat 0 (c - need)], {| sid := length heap; slen := need |}).
+
+(* tmpPool.Get(initCap) / Put: the pool is a stack (head = last entry) *)
+Definition hget (heap : list buf) (pool : list slice) (n : nat) : list buf * list slice * slice :=
+  match pool with
+  | [] => (heap ++ [repeat 0 n], [], {| sid := length heap; slen := 0 |})
+  | s :: rest => (heap, rest, {| sid := sid s; slen := 0 |})
+  end.
+
+(* newSolver := tmpPool.Get(len(solver)+1); newSolver = append(newSolver, solver...); newSolver = append(newSolver, item)
+   with xs = the contents of solver *)
+Definition mk (grow : nat -> nat -> nat) (heap : list buf) (pool : list slice) (xs : list nat) (idx : nat) :=
+  let '(heap1, pool1, ns) := hget heap pool (length xs + 1) in
+  let '(heap2, ns2) := happend grow heap1 ns xs in
+  let '(heap3, ns3) := happend grow heap2 ns2 [idx] in (heap3, pool1, ns3).
+
+Definition hhas (k : Z) (dp : list hcell) : bool := existsb (fun c => (fst c =? k)%Z) dp.
+Fixpoint hlookup (k : Z) (dp : list hcell) : option slice :=
+  match dp with [] => None | (k', s) :: t => if (k' =? k)%Z then Some s else hlookup k t end.
+
+Record hst := { h_heap : list buf; h_tmp : list hcell; h_pool : list slice; h_ovf : Z }.
+
+Fixpoint hround (brk : breaker) (grow : nat -> nat -> nat) (maxV v : Z) (idx : nat) (allow : bool) (dp entries : list hcell)
+  (st : hst) : hst :=
+  match entries with
+  | [] => st
+  | (cur, s) :: t =>
+      let nv := (cur + v)%Z in
+      if ((maxV <? nv) && (negb allow || ((0 <? h_ovf st) && (h_ovf st <? nv))))%Z then hround brk grow maxV v idx allow dp t st
+      else
+        let ovf' := if (maxV <? nv)%Z then nv else h_ovf st in
+        match hlookup nv dp, brk with
+        | Some old, None => hround brk grow maxV v idx allow dp t {| h_heap := h_heap st; h_tmp := h_tmp st; h_pool := h_pool st; h_ovf := ovf' |}
+        | oldo, _ =>
+            let '(heap3, pool1, ns3) := mk grow (h_heap st) (h_pool st) (content (h_heap st) s) idx in
+            let keep := match oldo, brk with
+                        | Some old, Some f => f (content heap3 old) (content heap3 ns3)
+                        | _, _ => true
+                        end in
+            if keep then hround brk grow maxV v idx allow dp t {| h_heap := heap3; h_tmp := (nv, ns3) :: h_tmp st; h_pool := pool1; h_ovf := ovf' |}
+            else hround brk grow maxV v idx allow dp t {| h_heap := heap3; h_tmp := h_tmp st; h_pool := ns3 :: pool1; h_ovf := ovf' |}
+        end
+  end.
+
+(* for v, solver := range dpTmp { if old, ok := dp[v]; ok { tmpPool.Put(old) }; dp[v] = solver } *)
+Definition hmerge (pord : list slice -> list slice) (dp tmp : list hcell) (pool : list slice) : list hcell * list slice :=
+  (tmp ++ filter (fun c => negb (hhas (fst c) tmp)) dp,
+   pord (map snd (filter (fun c => hhas (fst c) tmp) dp)) ++ pool).
+
+Record hstate := { s_heap : list buf; s_dp : list hcell; s_pool : list slice; s_ovf : Z }.
+Fixpoint hsolve (brk : breaker) (grow : nat -> nat -> nat) (maxV : Z) (allow : bool)
+  (ord : nat -> list hcell -> list hcell) (pord : list slice -> list slice) (vals : list Z) (n : nat) : hstate :=
+  match n with
+  | O => {| s_heap := [[]]; s_dp := [(0%Z, {| sid := 0; slen := 0 |})]; s_pool := []; s_ovf := 0%Z |}
+  | S k => let st := hsolve brk grow maxV allow ord pord vals k in
+           let r := hround brk grow maxV (nth k vals 0%Z) k allow (s_dp st) (ord k (s_dp st))
+                      {| h_heap := s_heap st; h_tmp := []; h_pool := s_pool st; h_ovf := s_ovf st |} in
+           let (dp', pool') := hmerge pord (s_dp st) (h_tmp r) (h_pool r) in
+           {| s_heap := h_heap r; s_dp := dp'; s_pool := pool'; s_ovf := h_ovf r |}
+  end.
+
+(* the value-level view of a buffer-level map *)
+Definition herase (heap : list buf) (dp : list hcell) : list dcell := map (fun c => (fst c, content heap (snd c))) dp.
+(* no two live cells share a buffer, and no recycled buffer is still referenced by a live cell (or recycled twice);
+   every slice points into the heap and stays within its buffer's capacity *)
+Definition private (heap : list buf) (cells : list hcell) (pool : list slice) : Prop :=
+  NoDup (map sid (map snd cells ++ pool)) /\
+  Forall (fun s => sid s < length heap /\ slen s <= length (nth (sid s) heap [])) (map snd cells ++ pool).
